@@ -180,9 +180,11 @@ def _freed_slot_indexing(rep, P: str, rel: str, construct: str, fn: ast.Function
     that is harmless only after the trailing empty positions have been dropped (otherwise it is None and loading raises)."""
     body = fn.body
     trim_at = None
+    from . import c04
+    trims = c04.trailing_none_trims(fn)
     for i, st in enumerate(body):
-        if isinstance(st, ast.While) and any(isinstance(c, ast.Call) and norm(c.func) == "self.object.modules.pop" for c in ast.walk(st)):
-            trim_at = i if trim_at is None else trim_at
+        if any(st is t for t in trims):
+            trim_at = i              # the last statement of the trim
     for i, st in enumerate(body):
         if not isinstance(st, ast.For):
             continue
@@ -230,9 +232,18 @@ def rebuild_rules(repo: Repo, rep, P: str):
     outer, inner = loops[0]
     mvar = norm(outer.target)
     # the pass only runs for modules without stored slots
+    from ..guards import nnf
     guard = [s for s in outer.body if isinstance(s, ast.If) and f"{mvar}.in_link_slots" in norm(s.test)]
-    if guard and norm(guard[0].test) == f"not {mvar} or {mvar}.in_link_slots" and isinstance(guard[0].body[0], ast.Continue):
-        rep.ok(f"{P}.R2", construct, f"if not {mvar} or {mvar}.in_link_slots: continue", "slots are rebuilt only when the file carried none")
+    want_skip = "or(" + ", ".join(sorted([f"not ({mvar})", f"{mvar}.in_link_slots"])) + ")"      # skip when empty or already has slots
+    ok_guard = False
+    if guard:
+        gd = guard[0]
+        if gd.body and isinstance(gd.body[-1], ast.Continue) and nnf(gd.test) == want_skip:
+            ok_guard = True                                           # if <skip>: continue
+        elif any(inner is x or any(inner is y for y in ast.walk(x)) for x in gd.body) and nnf(gd.test, neg=True) == want_skip:
+            ok_guard = True                                           # if <not skip>: <the pass>
+    if ok_guard:
+        rep.ok(f"{P}.R2", construct, f"if {norm(guard[0].test)}: …", "slots are rebuilt only when the file carried none")
     else:
         rep.violation(f"{P}.R2", construct, norm(guard[0].test) if guard else "missing guard",
                       "the slot rebuild must run exactly for modules whose file carried no slot chunk", f"{rel}:{outer.lineno}")
@@ -343,15 +354,106 @@ def rebuild_rules(repo: Repo, rep, P: str):
         else:
             rep.ok(f"{P}.R2", construct, text[:200], "outgoing entry and slot written at the same index of the same module")
     rep.count("rebuild_pass2_path_shapes", n2, 1)
-    src = norm(inner2)
-    need = ["out_link_idx = in_link_slots[in_link_idx]", "src_mod = self.object.modules[in_link]",
-            "out_links[out_link_idx] = mod.index", "out_link_slots[out_link_idx] = in_link_idx",
-            "while out_link_idx >= len(out_links):", "while out_link_idx >= len(out_link_slots):", "if out_link_idx != -1:"]
-    missing = [n for n in need if n not in src]
-    if not missing:
-        rep.ok(f"{P}.R3", construct, "out_links[slot] = target index; out_link_slots[slot] = position in target's in_links; padded with −1",
-               "the consistency relation of C07 instantiated on every stored link")
-    else:
-        rep.violation(f"{P}.R3", construct, f"missing: {missing}",
+    # pass 2 relation: for the i-th incoming link of `mod` from source S at slot k = mod.in_link_slots[i]:
+    #   S.out_links[k] = mod.index   and   S.out_link_slots[k] = i        (S = modules[mod.in_links[i]])
+    import re as _re
+    mvar2 = norm(outer2.target)
+    ivar = lvar = None
+    it2 = inner2.iter
+    if isinstance(it2, ast.Call) and norm(it2.func) == "enumerate" and isinstance(inner2.target, ast.Tuple) and len(inner2.target.elts) == 2:
+        ivar, lvar = norm(inner2.target.elts[0]), norm(inner2.target.elts[1])
+    verdicts = []
+    for path in paths2:
+        muts, aliases, binds = links.path_events(g2, path)
+        sets_l = [m for m in muts if m.kind == "setidx" and m.table == "out_links"]
+        sets_s = [m for m in muts if m.kind == "setidx" and m.table == "out_link_slots"]
+        if not sets_l and not sets_s:
+            continue
+        env: Dict[str, str] = {}
+        from ..packed import once_defs
+        for var, val in once_defs(outer2.body).items():       # locals of the enclosing loop body (table aliases of `mod`)
+            env[var] = norm(val)
+        for var, val, _ in binds:
+            env[var] = norm(val)
+
+        def res_expr(t: str) -> str:
+            for _ in range(4):
+                t2 = _re.sub(r"(?<![\w.])([A-Za-z_]\w*)\b", lambda m: "(" + env[m.group(1)] + ")" if m.group(1) in env and not env[m.group(1)].isidentifier()
+                             and not _re.fullmatch(r"[\w.\[\]]+", env[m.group(1)]) else env.get(m.group(1), m.group(1)), t)
+                if t2 == t:
+                    break
+                t = t2
+            return t
+        ok = bool(sets_l) and bool(sets_s) and ivar is not None
+        why = ""
+        for a_, b_ in zip(sets_l, sets_s):
+            idx_a, idx_b = res_expr(a_.index), res_expr(b_.index)
+            base_a = res_expr(a_.base)
+            want_idx = f"{mvar2}.in_link_slots[{ivar}]"
+            want_base = f"self.object.modules[{lvar}]"
+            alt_base = f"self.object.modules[{mvar2}.in_links[{ivar}]]"
+            if idx_a != want_idx or idx_b != want_idx:
+                ok, why = False, f"written at [{idx_a}] / [{idx_b}], expected [{want_idx}]"
+            elif base_a not in (want_base, alt_base):
+                ok, why = False, f"written on {base_a}, expected {want_base}"
+            elif res_expr(a_.value) != f"{mvar2}.index":
+                ok, why = False, f"out_links entry is {res_expr(a_.value)}, expected {mvar2}.index"
+            elif res_expr(b_.value) != ivar:
+                ok, why = False, f"out_link_slots entry is {res_expr(b_.value)}, expected {ivar}"
+        verdicts.append((ok, why, "; ".join(m.short() for m in muts)))
+    # the mirror entry is written for every stored slot k >= 0 (k == -1 marks a freed entry): the guard around the assignment
+    parents2: Dict[int, ast.AST] = {}
+    for n in ast.walk(inner2):
+        for c in ast.iter_child_nodes(n):
+            parents2[id(c)] = n
+    odefs = dict(once_defs(outer2.body))
+    odefs.update(once_defs(inner2.body))
+    from ..packed import resolve_names
+    for st in ast.walk(inner2):
+        if isinstance(st, ast.Assign) and isinstance(st.targets[0], ast.Subscript) and norm(st.targets[0].value).endswith("out_links"):
+            conds = []
+            cur: ast.AST = st
+            while id(cur) in parents2 and cur is not inner2:
+                par = parents2[id(cur)]
+                if isinstance(par, ast.If):
+                    inbody = any(cur is x for x in par.body)
+                    conds.append((par.test, inbody))
+                cur = par
+            kexpr = norm(resolve_names(st.targets[0].slice, odefs))
+            good = False
+            detail = "no guard"
+            for t, inbody in conds:
+                t2 = resolve_names(t, odefs)
+                if isinstance(t2, ast.Compare) and len(t2.ops) == 1 and norm(t2.left) == kexpr:
+                    try:
+                        c = repo.fold(t2.comparators[0])
+                    except Exception:
+                        continue
+                    op = type(t2.ops[0])
+                    if not inbody:
+                        op = {ast.Eq: ast.NotEq, ast.NotEq: ast.Eq, ast.Lt: ast.GtE, ast.GtE: ast.Lt, ast.Gt: ast.LtE, ast.LtE: ast.Gt}.get(op)
+                    detail = f"{kexpr} {op.__name__ if op else '?'} {c}"
+                    if (op is ast.NotEq and c == -1) or (op is ast.GtE and c == 0) or (op is ast.Gt and c == -1):
+                        good = True
+            if good:
+                rep.ok(f"{P}.R3", construct, f"if {detail}: {norm(st)[:60]}", "every stored slot except the freed marker is mirrored")
+            else:
+                rep.violation(f"{P}.R3", construct, f"{norm(st)[:80]} under `{detail}`",
+                              "the outgoing entry must be written for every stored slot k >= 0 and only for those (−1 marks a freed entry): "
+                              "links whose slot fails this guard are missing from the source module's outgoing table after loading",
+                              f"{rel}:{st.lineno}")
+    if not verdicts:
+        rep.violation(f"{P}.R3", construct, "no assignment into the outgoing tables",
                       "the outgoing tables are no longer rebuilt as out_links[slot] = target, out_link_slots[slot] = incoming position",
                       f"{rel}:{inner2.lineno}")
+    elif all(v[0] for v in verdicts):
+        rep.ok(f"{P}.R3", construct, "out_links[slot] = target index; out_link_slots[slot] = position in target's in_links",
+               "the consistency relation of C07 instantiated on every stored link")
+    else:
+        bad = next(v for v in verdicts if not v[0])
+        if ivar is None:
+            rep.inconclusive(f"{P}.R3", construct, bad[2][:160], "second pass does not enumerate the incoming links", f"{rel}:{inner2.lineno}")
+        else:
+            rep.violation(f"{P}.R3", construct, bad[2][:200],
+                          f"the outgoing tables are no longer rebuilt as out_links[slot] = target, out_link_slots[slot] = incoming position ({bad[1]})",
+                          f"{rel}:{inner2.lineno}")
